@@ -3,9 +3,10 @@
 EXTENDS Escrow, Json, TLC, TraceLib
 CONSTANT KNOWN
 Trace == ndJsonDeserialize("trace.ndjson")
-VARIABLES l, viol, hist, tips
-tvars == <<l, viol, hist, tips, evars>>
-Init == /\ l = 1 /\ viol = {} /\ hist = 0
+VARIABLES l, viol, hist, tips,
+          nbond   \* inferred: number of dispute fee payments made from stake so far in this history
+tvars == <<l, viol, hist, tips, nbond, evars>>
+Init == /\ l = 1 /\ viol = {} /\ hist = 0 /\ nbond = 0
         /\ oracleBal = Zero /\ openTips = Zero /\ escrowBal = Zero /\ credits18 = Zero /\ bridgeBal = Zero /\ paidIn = Zero /\ credited18 = Zero /\ ncredits = 0 /\ tips = <<>>
 
 Contains(s, sub) == \E i \in 1 .. (Len(s) - Len(sub) + 1) : SubSeq(s, i, i + Len(sub) - 1) = sub
@@ -26,7 +27,14 @@ Check(e) ==
   \cup (IF BridgeHoldsNothingAt(bridgeBal') THEN {} ELSE {"BridgeAccountHoldsNothing"})
   \cup (IF CreditsWithinPaidInAt(credited18', paidIn', ncredits') THEN {} ELSE {Credit(e, "CreditsNeverExceedPaidIn")})
   \cup (IF e.ev = "Tip" /\ e.ok THEN (IF TipLands(e.amt) THEN {} ELSE {"TipStaysWithQuery"}) ELSE {})
-  \cup (IF e.ev \in {"WithdrawTip", "WithdrawFeeRefund", "ClaimReward"} /\ ~e.ok /\ FundsError(e) THEN {Credit(e, "EntitledClaimFailsForLackOfFunds")} ELSE {})
+  \* (Dev_F13, open: a dispute fee paid from stake delivers up to one unit per selector less than is recorded; the dispute
+  \*  account is then short by those units when the last refunds / rewards are claimed.  Identity: fees were paid from
+  \*  stake earlier in this history and the bank's own figures differ by at most 16 units per such payment.)
+  \cup (IF e.ev \in {"WithdrawTip", "WithdrawFeeRefund", "ClaimReward"} /\ ~e.ok /\ FundsError(e)
+        THEN {IF e.ev # "WithdrawTip" /\ "F-13" \in KNOWN /\ nbond > 0 /\ "need" \in DOMAIN e /\ e.have \preceq e.need
+                 /\ (e.need -- e.have) \preceq N(16 * nbond)
+              THEN "KNOWN:F-13" ELSE Credit(e, "EntitledClaimFailsForLackOfFunds")}
+        ELSE {})
   \cup (IF e.ev = "WithdrawTip" /\ e.ok
         THEN (IF escrowBal' \preceq escrowBal /\ WithdrawCredit(escrowBal -- escrowBal') THEN {} ELSE {"WithdrawTakesWholeCredit"})
         ELSE {})
@@ -43,6 +51,7 @@ Step ==
         /\ paidIn' = IF reset THEN b.tipsesc ELSE paidIn ++ Monus(b.tipsesc, escrowBal)
         /\ credited18' = IF reset THEN c18 ELSE credited18 ++ Monus(c18, credits18)
         /\ tips' = e.post.reporter.tips
+        /\ nbond' = (IF reset THEN 0 ELSE nbond) + (IF e.ev \in {"ProposeDispute", "AddFeeToDispute"} /\ e.ok /\ "bond" \in DOMAIN e /\ e.bond THEN 1 ELSE 0)
         /\ ncredits' = IF reset THEN 0
                        ELSE ncredits + Cardinality({ s \in DOMAIN e.post.reporter.tips :
                                s \notin DOMAIN tips \/ (tips[s].mag \prec e.post.reporter.tips[s].mag) })
